@@ -3,9 +3,11 @@ package main
 import (
 	"fmt"
 	"math/rand"
+	"runtime"
 	"sort"
 	"strconv"
 	"strings"
+	"sync/atomic"
 	"time"
 
 	"github.com/google/uuid"
@@ -39,11 +41,60 @@ type c04inst struct {
 	// oracle: items expected in the channels at the next recv, per type
 	inChan map[int][]string
 	barrier int
+	// the reader goroutine waits inside Send on a full slice channel; its barrier is still queued
+	blocked bool
+	// oracle: items in the slice channels (to know when the property itself expects the reader to wait)
+	occ map[int]int
+	// the server does not know the tree yet: the first message arrives while it is being stored
+	window bool
 }
 
 type c04form struct {
 	slice bool
 	ch    bool // target is a channel
+	cap   int  // its capacity
+}
+
+func c04goroutines() []string {
+	buf := make([]byte, 1<<20)
+	for {
+		n := runtime.Stack(buf, true)
+		if n < len(buf) {
+			buf = buf[:n]
+			break
+		}
+		buf = make([]byte, 2*len(buf))
+	}
+	return strings.Split(string(buf), "\n\n")
+}
+
+// c04readersInSend counts the goroutines that wait inside a channel send of dispatchChannel
+func c04readersInSend() int {
+	cnt := 0
+	for _, g := range c04goroutines() {
+		if strings.Contains(g, "[chan send") && strings.Contains(g, ").dispatchChannel(") {
+			cnt++
+		}
+	}
+	return cnt
+}
+
+// c04flushIdle waits until no routine flushing parked messages (checkPendingMessages) exists any more,
+// started or not: what they pass on has then been handed to the instances
+func c04flushIdle() bool {
+	for dl := time.Now().Add(10 * time.Second); time.Now().Before(dl); time.Sleep(100 * time.Microsecond) {
+		busy := false
+		for _, g := range c04goroutines() {
+			if strings.Contains(g, ").checkPendingMessages") {
+				busy = true
+				break
+			}
+		}
+		if !busy {
+			return true
+		}
+	}
+	return false
 }
 
 func (in *c04inst) srcOf(n *onet.TreeNode) string {
@@ -110,8 +161,14 @@ func c04multiExec(c *h.Ctx, cs *h.Case) {
 	insts := map[int]*c04inst{}
 	var order []int
 	premise := strings.HasSuffix(cs.Class, "premise")
+	inSend0 := -1 // readers found inside Send before this case started (none, unless an earlier case went wrong)
+	nBlocked := 0
 	defer func() {
+		onet.VerifSetHook(nil)
 		for _, in := range insts {
+			if in.rrec != nil {
+				in.rrec.DrainChans() // lets a reader that waits inside Send go on
+			}
 			if in.rec != nil {
 				in.rec.Tni.Done()
 			}
@@ -144,8 +201,60 @@ func c04multiExec(c *h.Ctx, cs *h.Case) {
 		f.cl.Overlay(in.ct.srv).Process(env)
 		return nil
 	}
+	syncCh := func(in *c04inst) chan int {
+		if in.std {
+			if in.rec == nil {
+				in.rec = fix.RecOf(in.to)
+			}
+			if in.rec == nil {
+				return nil
+			}
+			return in.rec.SyncCh
+		}
+		if in.rrec == nil {
+			in.rrec = fix.RegRecOf(in.to)
+		}
+		if in.rrec == nil {
+			return nil
+		}
+		return in.rrec.SyncCh
+	}
+	// await waits until the reader of the instance has handled its latest barrier; "blocked" when the
+	// reader waits inside Send on a full channel instead (found by looking at the goroutines, not by a time-out)
+	await := func(in *c04inst) string {
+		ch := syncCh(in)
+		if ch == nil {
+			return "no-instance"
+		}
+		dl := time.Now().Add(10 * time.Second)
+		for time.Now().Before(dl) {
+			select {
+			case got := <-ch:
+				if got != in.barrier {
+					cs.Fail("barrier-order", fmt.Sprintf("instance %d: barrier %d handled, expected %d", in.id, got, in.barrier))
+				}
+				return ""
+			case <-time.After(3 * time.Millisecond):
+			}
+			if in.std {
+				continue
+			}
+			if inSend0 < 0 {
+				inSend0 = 0
+			}
+			if c04readersInSend() > inSend0+nBlocked {
+				nBlocked++
+				in.blocked = true
+				return "blocked"
+			}
+		}
+		return "hang"
+	}
 	// sync makes sure the reader of the instance has dispatched everything handed to it so far
 	sync := func(in *c04inst) string {
+		if in.blocked {
+			return "" // its barrier is queued behind the waiting Send
+		}
 		in.barrier++
 		bsrc := "0"
 		if !in.isRoot {
@@ -154,33 +263,7 @@ func c04multiExec(c *h.Ctx, cs *h.Case) {
 		if err := inject(in, 9, bsrc, in.barrier); err != nil {
 			return "err"
 		}
-		var ch chan int
-		if in.std {
-			if in.rec == nil {
-				in.rec = fix.RecOf(in.to)
-			}
-			if in.rec == nil {
-				return "no-instance"
-			}
-			ch = in.rec.SyncCh
-		} else {
-			if in.rrec == nil {
-				in.rrec = fix.RegRecOf(in.to)
-			}
-			if in.rrec == nil {
-				return "no-instance"
-			}
-			ch = in.rrec.SyncCh
-		}
-		select {
-		case got := <-ch:
-			if got != in.barrier {
-				cs.Fail("barrier-order", fmt.Sprintf("instance %d: barrier %d handled, expected %d", in.id, got, in.barrier))
-			}
-		case <-time.After(10 * time.Second):
-			return "hang"
-		}
-		return ""
+		return await(in)
 	}
 	take := func(in *c04inst) []fix.Delivery {
 		if in.std {
@@ -201,14 +284,21 @@ func c04multiExec(c *h.Ctx, cs *h.Case) {
 			id, _ := strconv.Atoi(tk[2])
 			k, _ := strconv.Atoi(tk[4])
 			in := &c04inst{id: id, k: k, isRoot: tk[3] == "root", std: tk[5] == "std", round: uuid.New(),
-				pend: map[int][]string{}, sent: map[int]string{}, seen: map[int]bool{}, inChan: map[int][]string{}}
-			in.ct = f.tree(in.isRoot, k)
+				pend: map[int][]string{}, sent: map[int]string{}, seen: map[int]bool{}, inChan: map[int][]string{},
+				occ: map[int]int{}}
+			if in.std && len(tk) == 7 && tk[6] == "window" {
+				in.window = true
+				in.ct = f.unknownTree(in.isRoot, k, rand.New(rand.NewSource(c.Seed*1000003+atomic.AddInt64(&c02unknown, 1))))
+			} else {
+				in.ct = f.tree(in.isRoot, k)
+			}
 			in.to = fix.TokenFor(in.ct.t, in.ct.target, in.round)
 			if old, ok := insts[id]; ok {
 				if old.rec != nil {
 					old.rec.Tni.Done()
 				}
 				if old.rrec != nil {
+					old.rrec.DrainChans()
 					old.rrec.Tni.Done()
 				}
 			} else {
@@ -216,11 +306,11 @@ func c04multiExec(c *h.Ctx, cs *h.Case) {
 			}
 			insts[id] = in
 			if in.std {
-				if len(tk) != 6 {
+				if len(tk) == 7 && !in.window {
 					cs.Impl = append(cs.Impl, "bad-op")
 					continue
 				}
-				in.forms = map[int]c04form{1: {true, false}, 2: {true, true}, 3: {false, false}, 4: {false, true}}
+				in.forms = map[int]c04form{1: {true, false, 0}, 2: {true, true, 1000}, 3: {false, false, 0}, 4: {false, true, 1000}}
 				cs.Impl = append(cs.Impl, "ok")
 				continue
 			}
@@ -261,6 +351,17 @@ func c04multiExec(c *h.Ctx, cs *h.Case) {
 					}
 				}
 			}
+		case len(tk) == 3 && tk[1] == "ireg":
+			id, _ := strconv.Atoi(tk[2])
+			in := insts[id]
+			if in == nil {
+				cs.Impl = append(cs.Impl, "bad-op")
+				continue
+			}
+			// the tree is registered again, as every start of a protocol on it does: whatever is parked for it is flushed
+			f.cl.Overlay(in.ct.srv).RegisterTree(in.ct.t)
+			c04flushIdle()
+			cs.Impl = append(cs.Impl, "ok")
 		case len(tk) == 6 && tk[1] == "imsg":
 			id, _ := strconv.Atoi(tk[2])
 			in := insts[id]
@@ -268,17 +369,41 @@ func c04multiExec(c *h.Ctx, cs *h.Case) {
 				cs.Impl = append(cs.Impl, "bad-op")
 				continue
 			}
+			if in.blocked {
+				cs.Impl = append(cs.Impl, "stuck")
+				continue
+			}
 			ty, _ := strconv.Atoi(tk[3])
 			v, _ := strconv.Atoi(tk[5])
 			in.sent[v] = fmt.Sprintf("%d/%s", ty, tk[4])
-			if err := inject(in, ty, tk[4], v); err != nil {
+			if in.window {
+				// this message finds no tree; the server learns the tree before the message is parked
+				in.window = false
+				var fired int32
+				onet.VerifSetHook(func(name string, key interface{}) {
+					if name == "tm.miss" && atomic.CompareAndSwapInt32(&fired, 0, 1) {
+						f.cl.Overlay(in.ct.srv).RegisterTree(in.ct.t)
+					}
+				})
+				err := inject(in, ty, tk[4], v)
+				c04flushIdle()
+				onet.VerifSetHook(nil)
+				if err != nil {
+					cs.Impl = append(cs.Impl, "err")
+					continue
+				}
+			} else if err := inject(in, ty, tk[4], v); err != nil {
 				cs.Impl = append(cs.Impl, "err")
 				continue
 			}
 			// every live instance is synchronised: a batch that leaked into another instance shows up there
 			bad := ""
 			for _, oid := range order {
-				if r := sync(insts[oid]); r != "" {
+				r := sync(insts[oid])
+				if r == "blocked" && oid == id {
+					continue
+				}
+				if r != "" {
 					bad = r
 					break
 				}
@@ -301,6 +426,9 @@ func c04multiExec(c *h.Ctx, cs *h.Case) {
 				}
 			}
 			got := c04join(obs)
+			if in.blocked {
+				got = "blocked"
+			}
 			cs.Impl = append(cs.Impl, got)
 			if in.std {
 				for _, ch := range in.rec.RetainedChanged() {
@@ -324,9 +452,20 @@ func c04multiExec(c *h.Ctx, cs *h.Case) {
 					}
 				}
 				if handled && fm.ch && !in.std && want != "-" {
-					// lands in the channel, seen at the next recv
+					// lands in the channel — or waits for room in it —, seen at the next recv: nothing may be lost
 					in.inChan[ty] = append(in.inChan[ty], want)
 					want = "-"
+					if fm.slice {
+						if in.occ[ty] >= fm.cap {
+							want = "blocked"
+						} else {
+							in.occ[ty]++
+						}
+					}
+				}
+				if want == "blocked" && got == "-" {
+					// the property does not demand that the reader waits — only that the batch is not lost: see recv
+					want = got
 				}
 				if got != want {
 					cs.Fail("batch-mismatch", fmt.Sprintf("after %q instance %d received %q, the property demands %q", op, id, got, want))
@@ -346,9 +485,22 @@ func c04multiExec(c *h.Ctx, cs *h.Case) {
 				continue
 			}
 			ds := in.rrec.DrainChans()
+			if in.blocked {
+				// the waiting Send goes through now; the queued barrier tells when, then the batch is in the channel
+				in.blocked = false
+				nBlocked--
+				if r := await(in); r != "" {
+					cs.Impl = append(cs.Impl, r)
+					cs.Fail(r, "the reader did not go on after the protocol read its channels")
+					return
+				}
+				ds = append(ds, in.rrec.DrainChans()...)
+				sort.SliceStable(ds, func(a, b int) bool { return ds[a].Ty < ds[b].Ty })
+			}
 			in.checkDeliveries(cs, ds)
 			got := c04join(in.show(ds))
 			cs.Impl = append(cs.Impl, got)
+			in.occ = map[int]int{}
 			if premise {
 				var want []string
 				for t := 1; t <= 4; t++ {
@@ -356,7 +508,7 @@ func c04multiExec(c *h.Ctx, cs *h.Case) {
 					in.inChan[t] = nil
 				}
 				if got != c04join(want) {
-					cs.Fail("channel-mismatch", fmt.Sprintf("the channels of instance %d held %q, the property demands %q", id, got, c04join(want)))
+					cs.Fail("channel-mismatch", fmt.Sprintf("the channels of instance %d held %q when the protocol read them, the property demands %q (every complete round as one batch, none lost)", id, got, c04join(want)))
 				}
 			}
 		default:
@@ -376,7 +528,8 @@ func c04multiExec(c *h.Ctx, cs *h.Case) {
 }
 
 // c04scriptForms is the oracle's reading of a well-formed script in which every type is
-// registered in one form: slice or plain, and whether a channel receives it (channels win).
+// registered in one form: slice or plain, whether a channel receives it (channels win) and the
+// channel's capacity.
 func c04scriptForms(groups []fix.RegGroup) map[int]c04form {
 	out := map[int]c04form{}
 	for _, g := range groups {
@@ -384,14 +537,25 @@ func c04scriptForms(groups []fix.RegGroup) map[int]c04form {
 			if len(a) < 3 || (a[0] != 'f' && a[0] != 'c' && a[0] != 'q') || (a[1] != 's' && a[1] != 'p') {
 				continue
 			}
-			t, err := strconv.Atoi(strings.Split(a[2:], ":")[0])
+			f := strings.Split(a[2:], ":")
+			t, err := strconv.Atoi(f[0])
 			if err != nil {
 				continue
 			}
 			fm := out[t]
 			fm.slice = a[1] == 's'
-			if a[0] != 'f' {
+			switch a[0] {
+			case 'c':
 				fm.ch = true
+				if len(f) == 2 {
+					fm.cap, _ = strconv.Atoi(f[1])
+				}
+			case 'q':
+				fm.ch = true
+				fm.cap = onet.DefaultChannelLength
+				if g.Kind == "L" {
+					fm.cap = g.Len
+				}
 			}
 			out[t] = fm
 		}
@@ -466,33 +630,35 @@ func c04multiGen(c *h.Ctx, yield func(*h.Case)) {
 		yield(cs)
 	}
 	// --- registration scripts in which every type is registered once, in a random form and way
-	mkScript := func(rr *rand.Rand, minCap int) (string, map[int]c04form) {
+	// sliceCap / plainCap: capacity ranges [lo, lo+span) of the channels the script makes
+	mkScript := func(rr *rand.Rand, sliceLo, sliceSpan, plainLo, plainSpan int) (string, map[int]c04form) {
 		var groups []string
-		forms := map[int]c04form{}
-		var hs, cs, ls []string
+		var hs, cs []string
+		ls := map[int][]string{}
 		for _, t := range rr.Perm(4) {
 			t++
 			if rr.Intn(6) == 0 {
 				continue // not registered at all
 			}
 			sl := rr.Intn(2) == 0
-			f := "p"
+			f, lo, span := "p", plainLo, plainSpan
 			if sl {
-				f = "s"
+				f, lo, span = "s", sliceLo, sliceSpan
 			}
 			switch rr.Intn(4) {
 			case 0:
 				hs = append(hs, fmt.Sprintf("f%s%d", f, t))
-				forms[t] = c04form{sl, false}
 			case 1:
-				cs = append(cs, fmt.Sprintf("q%s%d", f, t))
-				forms[t] = c04form{sl, true}
+				if lo+span > onet.DefaultChannelLength {
+					cs = append(cs, fmt.Sprintf("q%s%d", f, t)) // RegisterChannels: default length
+				} else {
+					cs = append(cs, fmt.Sprintf("c%s%d:%d", f, t, lo+rr.Intn(span)))
+				}
 			case 2:
-				cs = append(cs, fmt.Sprintf("c%s%d:%d", f, t, minCap+rr.Intn(4)))
-				forms[t] = c04form{sl, true}
+				cs = append(cs, fmt.Sprintf("c%s%d:%d", f, t, lo+rr.Intn(span)))
 			default:
-				ls = append(ls, fmt.Sprintf("q%s%d", f, t))
-				forms[t] = c04form{sl, true}
+				n := lo + rr.Intn(span)
+				ls[n] = append(ls[n], fmt.Sprintf("q%s%d", f, t))
 			}
 		}
 		split := func(kind string, as []string) {
@@ -504,32 +670,46 @@ func c04multiGen(c *h.Ctx, yield func(*h.Case)) {
 		}
 		split("H", hs)
 		split("C", cs)
-		split(fmt.Sprintf("L%d", minCap+rr.Intn(5)), ls)
+		var lens []int
+		for n := range ls {
+			lens = append(lens, n)
+		}
+		sort.Ints(lens)
+		for _, n := range lens {
+			split(fmt.Sprintf("L%d", n), ls[n])
+		}
 		rr.Shuffle(len(groups), func(i, j int) { groups[i], groups[j] = groups[j], groups[i] })
 		if len(groups) == 0 {
-			return "-", forms
+			return "-", map[int]c04form{}
 		}
-		return strings.Join(groups, ";"), forms
+		scr := strings.Join(groups, ";")
+		gs, _ := fix.ParseRegScript(scr)
+		return scr, c04scriptForms(gs)
 	}
-	for n := 0; n < c.Pick(60, 800); n++ {
+	stdForms := map[int]c04form{1: {true, false, 0}, 2: {true, true, 1000}, 3: {false, false, 0}, 4: {false, true, 1000}}
+	// traffic for registered forms: rounds for slice forms, single messages for plain forms; the protocol reads
+	// its channels before a plain one could fill, and — in the slow-reader class — only when a complete batch
+	// waits for room in a slice channel
+	regPremise := func(class string, sliceLo, sliceSpan int, slow bool) {
 		root := r.Intn(2) == 0
-		cs := &h.Case{Class: "reg premise"}
+		cs := &h.Case{Class: class}
 		ni := 1 + r.Intn(2)
 		ks := map[int]int{}
 		forms := map[int]map[int]c04form{}
+		isStd := map[int]bool{}
 		for i := 0; i < ni; i++ {
 			ks[i] = 1 + r.Intn(4)
-			scr, fm := mkScript(r, 4)
+			scr, fm := mkScript(r, sliceLo, sliceSpan, 8, 4)
 			forms[i] = fm
 			cs.Ops = append(cs.Ops, fmt.Sprintf("c04 inst %d %s %d reg %s", i, side(root), ks[i], scr))
 		}
 		if r.Intn(3) == 0 {
 			ks[ni] = 1 + r.Intn(3)
-			forms[ni] = map[int]c04form{1: {true, false}, 2: {true, true}, 3: {false, false}, 4: {false, true}}
+			forms[ni] = stdForms
+			isStd[ni] = true
 			cs.Ops = append(cs.Ops, fmt.Sprintf("c04 inst %d %s %d std", ni, side(root), ks[ni]))
 			ni++
 		}
-		// per (instance, type): rounds for slice forms, single messages for plain forms
 		type stream struct {
 			inst, ty int
 			msgs     []string
@@ -541,17 +721,19 @@ func c04multiGen(c *h.Ctx, yield func(*h.Case)) {
 				fm, ok := forms[i][ty]
 				switch {
 				case ok && fm.slice:
-					for rd := 0; rd < 1+r.Intn(2); rd++ {
+					rounds := 1 + r.Intn(2)
+					if slow {
+						rounds = 2 + r.Intn(3)
+					}
+					for rd := 0; rd < rounds; rd++ {
 						for _, j := range r.Perm(ks[i]) {
 							s.msgs = append(s.msgs, strconv.Itoa(j))
 						}
 					}
 					if !root {
-						s.msgs = append(s.msgs, "p")
-						r.Shuffle(len(s.msgs), func(a, b int) {
-							// keep the children's relative order irrelevant: any order is a valid arrival order
-							s.msgs[a], s.msgs[b] = s.msgs[b], s.msgs[a]
-						})
+						// the parent's message of the type arrives somewhere in between
+						at := r.Intn(len(s.msgs) + 1)
+						s.msgs = append(s.msgs[:at], append([]string{"p"}, s.msgs[at:]...)...)
 					}
 				default:
 					for j := 0; j < 1+r.Intn(3); j++ {
@@ -565,27 +747,98 @@ func c04multiGen(c *h.Ctx, yield func(*h.Case)) {
 				streams = append(streams, s)
 			}
 		}
+		type key struct{ inst, ty int }
 		since := map[int]int{}
+		occ := map[key]int{}
+		got := map[key]int{}
+		stuck := map[int]bool{}
+		recv := func(i int) {
+			cs.Ops = append(cs.Ops, fmt.Sprintf("c04 recv %d", i))
+			since[i] = 0
+			stuck[i] = false
+			for ty := 1; ty <= 4; ty++ {
+				occ[key{i, ty}] = 0
+			}
+		}
 		for len(streams) > 0 {
-			val++
 			si := r.Intn(len(streams))
 			s := streams[si]
-			cs.Ops = append(cs.Ops, fmt.Sprintf("c04 imsg %d %d %s %d", s.inst, s.ty, s.msgs[0], val))
+			if stuck[s.inst] {
+				// the reader of this instance waits inside Send: the protocol reads (at once, or after some
+				// traffic for the other instances)
+				if r.Intn(2) == 0 || len(streams) == 1 {
+					recv(s.inst)
+				}
+				continue
+			}
+			val++
+			src := s.msgs[0]
+			cs.Ops = append(cs.Ops, fmt.Sprintf("c04 imsg %d %d %s %d", s.inst, s.ty, src, val))
 			s.msgs = s.msgs[1:]
 			if len(s.msgs) == 0 {
 				streams = append(streams[:si], streams[si+1:]...)
 			}
 			since[s.inst]++
-			// the protocol reads its channels often enough that none fills (capacities are at least 4)
-			if since[s.inst] >= 3 || r.Intn(3) == 0 {
-				cs.Ops = append(cs.Ops, fmt.Sprintf("c04 recv %d", s.inst))
-				since[s.inst] = 0
+			if fm, ok := forms[s.inst][s.ty]; ok && fm.slice && fm.ch && !isStd[s.inst] {
+				complete := src == "p"
+				if src != "p" {
+					got[key{s.inst, s.ty}]++
+					if got[key{s.inst, s.ty}] == ks[s.inst] {
+						got[key{s.inst, s.ty}] = 0
+						complete = true
+					}
+				}
+				if complete {
+					if occ[key{s.inst, s.ty}] >= fm.cap {
+						stuck[s.inst] = true
+					} else {
+						occ[key{s.inst, s.ty}]++
+					}
+				}
+			}
+			if stuck[s.inst] {
+				if r.Intn(2) == 0 {
+					recv(s.inst)
+				}
+				continue
+			}
+			if since[s.inst] >= 6 || (!slow && r.Intn(3) == 0) {
+				recv(s.inst)
 			}
 		}
 		for i := 0; i < ni; i++ {
-			cs.Ops = append(cs.Ops, fmt.Sprintf("c04 recv %d", i))
+			recv(i)
 		}
-		c.Count("class=reg premise")
+		c.Count("class=" + class)
+		yield(cs)
+	}
+	for n := 0; n < c.Pick(60, 800); n++ {
+		regPremise("reg premise", 8, 4, false)
+	}
+	// --- a slow reader: slice channels of capacity 0..2 (unbuffered ones included), several rounds before the
+	// protocol reads: the reader goroutine waits inside Send, no batch may be lost
+	for n := 0; n < c.Pick(50, 600); n++ {
+		regPremise("reg slow-reader premise", 0, 3, true)
+	}
+	// --- the tree arrives while the first message is between the lookup and the parking, the instance lives on
+	// for further rounds, the tree is registered again (as every protocol start on it does) in between
+	for n := 0; n < c.Pick(30, 300); n++ {
+		root := r.Intn(2) == 0
+		k := 1 + r.Intn(4)
+		cs := &h.Case{Class: "window premise"}
+		cs.Ops = append(cs.Ops, fmt.Sprintf("c04 inst 0 %s %d std window", side(root), k))
+		ty := 1 + r.Intn(2)
+		for rd := 0; rd < 2+r.Intn(2); rd++ {
+			for _, j := range r.Perm(k) {
+				val++
+				cs.Ops = append(cs.Ops, fmt.Sprintf("c04 imsg 0 %d %d %d", ty, j, val))
+				if r.Intn(3) == 0 {
+					cs.Ops = append(cs.Ops, "c04 ireg 0")
+				}
+			}
+			cs.Ops = append(cs.Ops, "c04 ireg 0")
+		}
+		c.Count("class=window premise")
 		yield(cs)
 	}
 	// --- anything goes: malformed arguments, a type registered several times in different forms and kinds,
